@@ -59,11 +59,48 @@ enum Ty {
     BigUint(u32),
 }
 
+/// How the exposed value comes to exist in the circuit.
+#[derive(Clone, Copy, Debug, PartialEq, Eq, Hash, PartialOrd, Ord, Serialize, Deserialize, Default)]
+enum Prov {
+    /// freshly assigned witness
+    #[default]
+    Fresh,
+    /// a + b of two witnesses (emulated elements stay un-normalised, BigUint grows by one bit)
+    Sum,
+    /// a - b of two witnesses (points: a + (-b))
+    Diff,
+    /// 3 * a + 5 (fields) / 2a + b (points)
+    Lin,
+}
+
 #[derive(Clone, Debug)]
 struct Expose {
     ty: Ty,
     /// true: assign + constrain_as_public_input; false: assign_as_public_input
     constrain: bool,
+    prov: Prov,
+}
+
+/// A second operand derived from the value (so that the case is a function of the value):
+/// all-ones limbs, the largest element, the value itself or a pseudo-random element.
+fn operand(x: &BigUint, m: &BigUint) -> BigUint {
+    let h = vpcore::digest(&x.to_bytes_le());
+    match h % 5 {
+        0 => m - 1u32,
+        1 => ((BigUint::one() << 192u32) - 1u32) % m,
+        2 => x.clone() % m,
+        3 => (BigUint::one() << 64u32) % m,
+        _ => (BigUint::from(h) * BigUint::from(h) * BigUint::from(h) * BigUint::from(h) * BigUint::from(0x9e3779b97f4a7c15u64)) % m,
+    }
+}
+
+fn sub_mod(a: &BigUint, b: &BigUint, m: &BigUint) -> BigUint {
+    ((a % m) + m - (b % m)) % m
+}
+
+fn inv3(m: &BigUint) -> BigUint {
+    // m is a prime > 3
+    BigUint::from(3u32).modpow(&(m - 2u32), m)
 }
 
 fn big_to_field<K: PrimeField>(x: &BigUint) -> K {
@@ -99,6 +136,34 @@ impl Ty {
             _ => d,
         }
     }
+    /// Which provenances the type supports (others fall back to `Fresh`).
+    fn prov(&self, p: Prov) -> Prov {
+        match (self, p) {
+            (Ty::JubjubScalar, _) => Prov::Fresh,
+            (Ty::Bit | Ty::Byte, Prov::Diff | Prov::Lin) => Prov::Sum,
+            (Ty::BigUint(_), Prov::Lin) => Prov::Sum,
+            (_, p) => p,
+        }
+    }
+    /// Off-circuit encoding of a value exposed with the given provenance (only the declared
+    /// width of a BigUint depends on it).
+    fn encode_as(&self, x: &BigUint, prov: Prov) -> Vec<F> {
+        match (self, self.prov(prov)) {
+            (Ty::BigUint(_), p @ (Prov::Sum | Prov::Diff)) => AssignedBigUint::<F>::as_public_input(x, self.derived_width(p)),
+            _ => self.encode(x),
+        }
+    }
+    /// The bit bound the BigUint gadget derives for a computed integer (limb-granular after
+    /// normalisation, e.g. 96 + 96 bits -> 192): the caller of constrain_as_public_input must
+    /// pass exactly this bound, and encodes off-circuit with it. Read from a dry synthesis.
+    fn derived_width(&self, prov: Prov) -> u32 {
+        let Ty::BigUint(n) = self else { unreachable!() };
+        if let Some(w) = WIDTHS.lock().unwrap().get(&(*n, prov)) {
+            return *w;
+        }
+        let _ = op_k(&Expose { ty: *self, constrain: true, prov }, &[BigUint::zero()]);
+        *WIDTHS.lock().unwrap().get(&(*n, prov)).expect("dry synthesis records the derived width")
+    }
     /// The library's off-circuit encoding of the value denoted by `x`.
     fn encode(&self, x: &BigUint) -> Vec<F> {
         match self {
@@ -126,6 +191,121 @@ impl Ty {
     }
     /// Assigns and exposes the value inside a circuit.
     fn expose<L: Layouter<F>>(&self, std: &ZkStdLib, l: &mut L, x: Value<BigUint>, constrain: bool) -> Result<(), Error> {
+        self.expose_as(std, l, x, constrain, Prov::Fresh)
+    }
+
+    fn expose_as<L: Layouter<F>>(&self, std: &ZkStdLib, l: &mut L, x: Value<BigUint>, constrain: bool, prov: Prov) -> Result<(), Error> {
+        let prov = self.prov(prov);
+        if prov == Prov::Fresh {
+            return self.expose_fresh(std, l, x, constrain);
+        }
+        let m = self.domain();
+        // operands (a, b) with a (+|-) b = x, or 3a + 5 = x, in the type's field / scalar field
+        let ab: Value<(BigUint, BigUint)> = x.clone().map(|x| {
+            let r = operand(&x, &m);
+            match prov {
+                Prov::Sum => (sub_mod(&x, &r, &m), r),
+                Prov::Diff => ((&x + &r) % &m, r),
+                // fields: 3a + 5 = x ; points: 2a + b = x
+                _ => match self {
+                    Ty::Native | Ty::SecpScalar | Ty::SecpBase | Ty::BlsBase => (sub_mod(&x, &BigUint::from(5u32), &m) * inv3(&m) % &m, r),
+                    _ => {
+                        let half = (&m + 1u32) >> 1; // 1/2 mod odd m
+                        (sub_mod(&x, &r, &m) * half % &m, r)
+                    }
+                },
+            }
+        });
+        let a = ab.clone().map(|t| t.0);
+        let b = ab.map(|t| t.1);
+        macro_rules! field {
+            ($chip:expr, $t:ty, $k:ty) => {{
+                let chip = $chip;
+                let va: $t = chip.assign(l, a.map(|a| big_to_field::<$k>(&a)))?;
+                let vb: $t = chip.assign(l, b.map(|b| big_to_field::<$k>(&b)))?;
+                let s: $t = match prov {
+                    Prov::Sum => chip.add(l, &va, &vb)?,
+                    Prov::Diff => chip.sub(l, &va, &vb)?,
+                    _ => {
+                        let t: $t = chip.mul_by_constant(l, &va, <$k>::from(3u64))?;
+                        chip.add_constant(l, &t, <$k>::from(5u64))?
+                    }
+                };
+                chip.constrain_as_public_input(l, &s)
+            }};
+        }
+        macro_rules! point {
+            ($chip:expr, $t:ty, $g:expr, $k:ty) => {{
+                let chip = $chip;
+                let va: $t = chip.assign(l, a.map(|a| $g * big_to_field::<$k>(&a)))?;
+                let vb: $t = chip.assign(l, b.map(|b| $g * big_to_field::<$k>(&b)))?;
+                let s: $t = match prov {
+                    Prov::Sum => chip.add(l, &va, &vb)?,
+                    Prov::Diff => {
+                        let nb = chip.negate(l, &vb)?;
+                        chip.add(l, &va, &nb)?
+                    }
+                    _ => {
+                        let d = chip.double(l, &va)?;
+                        chip.add(l, &d, &vb)?
+                    }
+                };
+                chip.constrain_as_public_input(l, &s)
+            }};
+        }
+        match self {
+            Ty::Bit => {
+                // x = a xor b
+                let xb = x.map(|x| !x.is_zero());
+                let rb = xb.map(|x| !x);
+                let va: AssignedBit<F> = std.assign(l, xb.zip(rb).map(|(x, r)| x ^ r))?;
+                let vb: AssignedBit<F> = std.assign(l, rb)?;
+                let s = std.xor(l, &[va, vb])?;
+                std.constrain_as_public_input(l, &s)
+            }
+            Ty::Byte => {
+                // a native value converted to a byte
+                let v: AssignedNative<F> = std.assign(l, x.map(|x| big_to_f(&x)))?;
+                let y: AssignedByte<F> = std.convert(l, &v)?;
+                std.constrain_as_public_input(l, &y)
+            }
+            Ty::Native => field!(std, AssignedNative<F>, F),
+            Ty::SecpScalar => field!(std.secp256k1_scalar(), AssignedField<F, k256::Fq, MEP>, k256::Fq),
+            Ty::SecpBase => field!(std.secp256k1_curve().base_field_chip(), AssignedField<F, k256::Fp, MEP>, k256::Fp),
+            Ty::BlsBase => field!(std.bls12_381_curve().base_field_chip(), AssignedField<F, midnight_curves::Fp, MEP>, midnight_curves::Fp),
+            Ty::JubjubPoint => point!(std.jubjub(), AssignedNativePoint<JubjubExtended>, JubjubSubgroup::generator(), midnight_curves::Fr),
+            Ty::SecpPoint => point!(std.secp256k1_curve(), AssignedForeignPoint<F, k256::K256, MEP>, k256::K256::generator(), k256::Fq),
+            Ty::BlsPoint => point!(std.bls12_381_curve(), AssignedForeignPoint<F, G1Projective, MEP>, G1Projective::generator(), F),
+            Ty::BigUint(n) => {
+                // integers: a + b = x with b <= x, or (x + b) - b
+                let big = std.biguint();
+                let xb = x.clone().map(|x| {
+                    let r = operand(&x, &(&x + 1u32));
+                    (x, r)
+                });
+                match prov {
+                    Prov::Sum => {
+                        let va = big.assign_biguint(l, xb.clone().map(|(x, r)| x - r), *n)?;
+                        let vb = big.assign_biguint(l, xb.map(|(_, r)| r), *n)?;
+                        let s = big.add(l, &va, &vb)?;
+                        WIDTHS.lock().unwrap().insert((*n, prov), s.nb_bits());
+                        big.constrain_as_public_input(l, &s, s.nb_bits())
+                    }
+                    _ => {
+                        // (x + r) may need n + 1 bits
+                        let va = big.assign_biguint(l, xb.clone().map(|(x, r)| x + r), *n + 1)?;
+                        let vb = big.assign_biguint(l, xb.map(|(_, r)| r), *n)?;
+                        let s = big.sub(l, &va, &vb)?;
+                        WIDTHS.lock().unwrap().insert((*n, prov), s.nb_bits());
+                        big.constrain_as_public_input(l, &s, s.nb_bits())
+                    }
+                }
+            }
+            Ty::JubjubScalar => unreachable!(),
+        }
+    }
+
+    fn expose_fresh<L: Layouter<F>>(&self, std: &ZkStdLib, l: &mut L, x: Value<BigUint>, constrain: bool) -> Result<(), Error> {
         macro_rules! go {
             ($chip:expr, $t:ty, $v:expr) => {{
                 let chip = $chip;
@@ -172,17 +352,17 @@ impl Ty {
 
 impl Op for Expose {
     fn name(&self) -> String {
-        format!("expose({:?},{})", self.ty, if self.constrain { "constrain" } else { "assign_as_pi" })
+        format!("expose({:?},{}{})", self.ty, if self.constrain { "constrain" } else { "assign_as_pi" }, match self.ty.prov(self.prov) { Prov::Fresh => "", Prov::Sum => ",sum", Prov::Diff => ",diff", Prov::Lin => ",lin" })
     }
     fn arch(&self) -> ZkStdLibArch {
         self.ty.arch()
     }
     fn circuit<L: Layouter<F>>(&self, std: &ZkStdLib, l: &mut L, x: Value<Vec<BigUint>>) -> Result<(), Error> {
-        self.ty.expose(std, l, x.map(|x| x[0].clone()), self.constrain)
+        self.ty.expose_as(std, l, x.map(|x| x[0].clone()), self.constrain, self.prov)
     }
     fn reference(&self, x: &[BigUint]) -> Option<Vec<F>> {
         if x[0] < self.ty.domain() {
-            Some(self.ty.encode(&x[0]))
+            Some(self.ty.encode_as(&x[0], self.prov))
         } else {
             None
         }
@@ -201,6 +381,8 @@ struct Case {
     constrain: bool,
     value: Int,
     seed: u64,
+    #[serde(default)]
+    prov: Prov,
 }
 
 use vp_alg::Int;
@@ -250,6 +432,8 @@ fn types(quick: bool) -> Vec<Ty> {
 /// (type, encoding) -> value: shared across cases of a run for injectivity.
 static ENCODINGS: Mutex<Option<HashMap<(String, Vec<[u8; 32]>), BigUint>>> = Mutex::new(None);
 static LENGTHS: Mutex<Option<HashMap<String, usize>>> = Mutex::new(None);
+/// (declared width, provenance) -> bit bound derived by the BigUint gadget for the computed value
+static WIDTHS: Mutex<std::collections::BTreeMap<(u32, Prov), u32>> = Mutex::new(std::collections::BTreeMap::new());
 
 fn enc_key(v: &[F]) -> Vec<[u8; 32]> {
     v.iter()
@@ -262,10 +446,14 @@ fn enc_key(v: &[F]) -> Vec<[u8; 32]> {
 }
 
 fn one(c: &Case, mock: bool) -> CaseResult {
-    let op = Expose { ty: c.ty, constrain: c.constrain };
+    let op = Expose { ty: c.ty, constrain: c.constrain || c.prov != Prov::Fresh, prov: c.prov };
     let x = vec![c.value.big()];
     let inst = op.reference(&x).ok_or_else(|| Failure::new("harness:value-out-of-domain", format!("{c:?}")))?;
-    let tname = format!("{:?}", c.ty);
+    let tname = match (c.ty, c.ty.prov(c.prov)) {
+        // a BigUint sum is declared one bit wider: its encodings live in the wider type
+        (Ty::BigUint(_), p @ (Prov::Sum | Prov::Diff)) => format!("{:?}", Ty::BigUint(c.ty.derived_width(p))),
+        _ => format!("{:?}", c.ty),
+    };
     // (iii) injectivity and fixed length (cheap: off-circuit only)
     {
         let mut g = LENGTHS.lock().unwrap();
@@ -331,7 +519,7 @@ fn one(c: &Case, mock: bool) -> CaseResult {
             ensure!(!r.outcome.accepted(), format!("{}:accepts-truncated-encoding", op.name()), "value {}", x[0]);
         }
     }
-    Ok(Verdict::of(c.value.class != "random", format!("{tname}/{}", if c.constrain { "constrain" } else { "assign_as_pi" })).with(c.value.class.clone()))
+    Ok(Verdict::of(c.value.class != "random", format!("{tname}/{}", if c.constrain { "constrain" } else { "assign_as_pi" })).with(c.value.class.clone()).with(format!("provenance:{:?}", c.ty.prov(c.prov))))
 }
 
 // ---------------------------------------------------------------------------
@@ -432,7 +620,7 @@ fn main() {
                 let tys = tys2.clone();
                 (0..tys.len()).prop_flat_map(move |i| {
                     let ty = tys[i];
-                    (value_strategy(ty), any::<u64>()).prop_map(move |(value, seed)| Case { ty, constrain: true, value, seed })
+                    (value_strategy(ty), any::<u64>()).prop_map(move |(value, seed)| Case { ty, constrain: true, value, seed, prov: Prov::Fresh })
                 })
                 .boxed()
             },
@@ -444,11 +632,15 @@ fn main() {
             let n = if cheap { p.tier.pick(160, 2000) } else { p.tier.pick(48, 600) };
             p.sub_cfg(
                 &format!("circuit.{ty:?}"),
-                "circuit exposing v (both exposure paths) satisfied with as_public_input(v); every position edited once (+1,-1,random,neighbour,+2^64) rejected; truncated vector rejected when the dropped value is non-zero; non-trivial = boundary class value",
+                "circuit exposing v (both exposure paths for fresh witnesses; constrain_as_public_input for values computed in-circuit as a+b, a-b, 3a+5 / 2a+b, which leaves emulated elements un-normalised) satisfied with as_public_input(v); every position edited once (+1,-1,random,neighbour,+2^64) rejected; truncated vector rejected when the dropped value is non-zero; non-trivial = boundary class value",
                 n,
                 16,
                 8,
-                move || (value_strategy(ty), any::<bool>(), any::<u64>()).prop_map(move |(value, constrain, seed)| Case { ty, constrain: constrain || matches!(ty, Ty::BigUint(_)), value, seed }).boxed(),
+                move || {
+                    (value_strategy(ty), any::<bool>(), any::<u64>(), prop_oneof![3 => Just(Prov::Fresh), 1 => Just(Prov::Sum), 1 => Just(Prov::Diff), 1 => Just(Prov::Lin)])
+                        .prop_map(move |(value, constrain, seed, prov)| Case { ty, constrain: constrain || matches!(ty, Ty::BigUint(_)), value, seed, prov })
+                        .boxed()
+                },
                 |c| one(c, true),
             );
         }
